@@ -224,12 +224,15 @@ theorem C15_proto_table_nonempty : (Pm.Generated.protoTable.filter fun p => Pm.T
 
 `streamOf w0 ss c` is everything ever queued for client `c` when the passes `ps` have run from the start-up world `w0`:
 what earlier passes handed to `write(2)` on its descriptor (`histOf`, a ghost record — the system-call log `w.sys` is
-reset at the beginning of every pass), what the last pass wrote, and what still waits in `to`. -/
+reset at the beginning of every pass), what the last pass wrote, and what still waits in `to`.  A pass of a run (`Step`) is the
+shared `Pm.Daemon.PassX` of `Pm/RunX.lean` — the kernel's answers `p` and the regex answers `rx` recorded for that pass, so the
+regex engine's answers are arbitrary in every pass — and `runX` is the shared `Pm.Daemon.runX` (the same runs as in C02, C03,
+C05, C06, C11). -/
 
 open Pm.Daemon.StreamPf
 
 /-- a run without regex answers is a run of `runPasses` -/
-theorem C15_run_plain (w : W) (ps : List PassIn) : runX w (ps.map fun p => ([], p)) = runPasses w ps := runX_plain w ps
+theorem C15_run_plain (w : W) (ps : List PassIn) : runX w (ps.map fun p => ⟨p, []⟩) = runPasses w ps := runX_runPasses w ps
 
 /-- the ghost record is empty at start-up and grows, when a pass begins, by what the log of the world says was written -/
 theorem C15_history (w0 : W) (ss : List Step) (p : Step) (fd : Nat) :
@@ -338,8 +341,8 @@ theorem C15_run_departed (cl : Prop) (w0 : W) (hs : Startup w0) (hg : cl → Goo
 
 /-- client 1 sends `nodes`, `quit`, `nodes` in one read: the banner, the reply, `101 Goodbye` are written (the descriptor
     is made blocking), the client is destroyed in the same pass; the reply to the second `nodes` is never sent -/
-example : (runX Ex.w0 [([], Ex.p1), ([], Ex.pq)]).clients = [] ∧ (runX Ex.w0 [([], Ex.p1), ([], Ex.pq)]).nacc = 1 ∧
-    writtenOf Ex.w0 [([], Ex.p1), ([], Ex.pq)] 1000 = bstr "001 2\r\npowerman> 306 a1\r\n103 Query complete\r\npowerman> 101 Goodbye\r\n" := by
+example : (runX Ex.w0 [⟨Ex.p1, []⟩, ⟨Ex.pq, []⟩]).clients = [] ∧ (runX Ex.w0 [⟨Ex.p1, []⟩, ⟨Ex.pq, []⟩]).nacc = 1 ∧
+    writtenOf Ex.w0 [⟨Ex.p1, []⟩, ⟨Ex.pq, []⟩] 1000 = bstr "001 2\r\npowerman> 306 a1\r\n103 Query complete\r\npowerman> 101 Goodbye\r\n" := by
   decide +kernel
 
 /-! ### the invariant, step by step
